@@ -105,15 +105,15 @@ Proof. exact xrk_vs_biff8. Qed.
 
 (* ---- the cell list of every legal layout, in stream order ---- *)
 Theorem C03_sheet_cells : forall (fdiv100 : N -> N) (en : env) (c : layout),
-  wf_layout en c = true -> known_C03 c = None ->
+  wf_layout en c = true ->
   sheet_cells fdiv100 en (encode_sheet c) = Ok (logical fdiv100 en c).
 Proof. exact sheet_cells_encode. Qed.
 
 Theorem C03_reader_cells : forall (fdiv100 : N -> N) (en : env) (c : layout),
-  wf_layout en c = true -> known_C03 c = None ->
+  wf_layout en c = true ->
   reader_cells fdiv100 en (encode_sheet c) = Ok (logical fdiv100 en c).
 Proof.
-  exact (fun fd en c H K => reader_cells_of_sheet_cells fd en _ (sheet_cells_encode fd en c H K)).
+  exact (fun fd en c H => reader_cells_of_sheet_cells fd en _ (sheet_cells_encode fd en c H)).
 Qed.
 
 (* the fuel of the model (length of the part + 1) always suffices *)
@@ -123,27 +123,27 @@ Proof. exact cells_loop_no_fuel_out. Qed.
 
 (* ---- (4) the main theorem ---- *)
 Theorem C03_xlsb_sheet_main : forall (fdiv100 : N -> N) (en : env) (L : list cellr) (c : layout),
-  legal fdiv100 en c L -> known_C03 c = None ->
+  legal fdiv100 en c L ->
   worksheet_range_ref fdiv100 en FirstNonEmptyRow (encode_sheet c) = Ok (range_of (RVal DEmpty) L).
 Proof. exact xlsb_sheet_main. Qed.
 
 (* since Range::from_sparse takes min / max row bounds (commit 3140dd1) the order of the rows is
    immaterial: the same without the sortedness clause of [legal] *)
 Theorem C03_xlsb_sheet_main_any_order : forall (fdiv100 : N -> N) (en : env) (c : layout),
-  wf_layout en c = true -> known_C03 c = None ->
+  wf_layout en c = true ->
   worksheet_range_ref fdiv100 en FirstNonEmptyRow (encode_sheet c) =
     Ok (range_of (RVal DEmpty) (logical fdiv100 en c)).
 Proof. exact xlsb_sheet_main_any_order. Qed.
 
 Theorem C03_xlsb_sheet_values : forall (fdiv100 : N -> N) (en : env) (L : list cellr) (c : layout),
-  legal fdiv100 en c L -> known_C03 c = None ->
+  legal fdiv100 en c L ->
   exists r, worksheet_range_ref fdiv100 en FirstNonEmptyRow (encode_sheet c) = Ok r /\ Wf r /\
     rect r = tight_bbox (map fst L) /\
     forall q, get_value r q = if in_rect r q then Some (last_write (RVal DEmpty) L q) else None.
 Proof. exact xlsb_sheet_values. Qed.
 
 Theorem C03_xlsb_sheet_main_data : forall (fdiv100 : N -> N) (en : env) (L : list cellr) (c : layout),
-  legal fdiv100 en c L -> known_C03 c = None ->
+  legal fdiv100 en c L ->
   worksheet_range fdiv100 en FirstNonEmptyRow (encode_sheet c) =
     Ok (range_of DEmpty (map (fun x => (fst x, to_data (snd x))) L)).
 Proof. exact xlsb_sheet_main_data. Qed.
@@ -159,7 +159,7 @@ Theorem C03_xlsb_workbook_main :
   forall (fdiv100 : N -> N) (formats : list cellfmt) (is1904 : bool) (total : N)
          (items : list (frm * list N * list N)) (trailer : list N) (L : list cellr) (c : layout),
   total < 4294967296 -> lenN items < 4294967296 -> forallb wf_sst_item items = true ->
-  legal fdiv100 (mkEnv formats is1904 (sst_strings items)) c L -> known_C03 c = None ->
+  legal fdiv100 (mkEnv formats is1904 (sst_strings items)) c L ->
   workbook_range_ref fdiv100 formats is1904 (Some (encode_sst total items trailer))
                      FirstNonEmptyRow (encode_sheet c) = Ok (range_of (RVal DEmpty) L).
 Proof. exact xlsb_workbook_main. Qed.
@@ -204,19 +204,26 @@ Theorem C03_no_panic_sst : forall part : option (list N),
   read_shared_strings part <> Panic /\ read_shared_strings part <> OutOfFuel.
 Proof. exact no_panic_sst. Qed.
 
-(* ---- the known class: a worksheet part without BrtWsDim ---- *)
-Theorem C03_refuted_wsdim_absent : forall fdiv100 : N -> N, exists (c : layout) (L : list cellr),
-  legal fdiv100 empty_env c L /\ known_C03 c = Some 1 /\
-  worksheet_range_ref fdiv100 empty_env FirstNonEmptyRow (encode_sheet c)
-    <> Ok (range_of (RVal DEmpty) L).
-Proof. exact refuted_wsdim_absent. Qed.
+(* ---- no known class is left: the main theorems above cover layouts without BrtWsDim (the
+   class wsdim_absent of rounds 1-2 was repaired in /repo); a BrtWsDim-less layout is legal ---- *)
+Theorem C03_no_known_class : forall c : layout, known_C03 c = None.
+Proof. exact (fun c => eq_refl). Qed.
+
+Theorem C03_no_panic_header :
+  forall (f : nat) (s buf : list N) (dims : option (pos * pos)), (length s < f)%nat ->
+  scan_header f s buf dims <> Panic /\ scan_header f s buf dims <> OutOfFuel.
+Proof. exact no_panic_header. Qed.
 
 (* ---- non-vacuity ---- *)
 Example C03_main_nonvacuous : forall fdiv100 : N -> N,
   legal fdiv100 example_env example_layout (logical fdiv100 example_env example_layout) /\
-  known_C03 example_layout = None /\
+  l_dim example_layout <> None /\
   length (logical fdiv100 example_env example_layout) = 11%nat.
 Proof. exact example_legal. Qed.
+
+Example C03_wsdim_absent_nonvacuous : forall fdiv100 : N -> N,
+  legal fdiv100 empty_env nodim_layout [((0, 0), RVal (DBool true))] /\ l_dim nodim_layout = None.
+Proof. exact nodim_legal. Qed.
 
 Example C03_workbook_nonvacuous :
   forallb wf_sst_item [(fr1, [97; 98], []); (fr2, [99], [1; 2])] = true /\
@@ -240,7 +247,7 @@ Example C03_cell_nonvacuous :
 Proof. repeat split; vm_compute; reflexivity. Qed.
 
 Check C03_xlsb_sheet_main : forall (fdiv100 : N -> N) (en : env) (L : list cellr) (c : layout),
-  legal fdiv100 en c L -> known_C03 c = None ->
+  legal fdiv100 en c L ->
   worksheet_range_ref fdiv100 en FirstNonEmptyRow (encode_sheet c) = Ok (range_of (RVal DEmpty) L).
 Check C03_ignorable_transparent :
   forall (fdiv100 : N -> N) (en : env) (pre : list rawrec) (fr : frm) (id : N)
@@ -280,4 +287,5 @@ Print Assumptions C03_no_panic_sst.
 Print Assumptions C03_no_panic_range_ref.
 Print Assumptions C03_no_panic_workbook.
 Print Assumptions C03_xlsb_sheet_main_any_order.
-Print Assumptions C03_refuted_wsdim_absent.
+Print Assumptions C03_no_known_class.
+Print Assumptions C03_no_panic_header.
